@@ -331,6 +331,8 @@ MSG_APIS = [
     "MessageType.log",
     "write_traceback",
     "MessageType().write",
+    "MessageType.log with raising serializer",
+    "enclosing_action.log (an action that is open but not current)",
 ]
 ACT_STYLES = [
     "with",
@@ -386,6 +388,8 @@ def valid_default(prog):
         else:
             if a.get("api", 0) in (4, 5, 6) and a.get("mt", 0):
                 return False  # typed / traceback messages have a fixed type
+            if a.get("api", 0) == 7:
+                return False  # failing serializers are C07's / C13's alphabet
             if a.get("api", 0) == 5 and a.get("fs", 0):
                 return False
     return True
@@ -419,6 +423,7 @@ class Interp(object):
         self.serial = 0
         self.deferred = []
         self.task_ids = []
+        self.astack = []  # real Action objects parallel to self.stack (None where unknown)
         self.side = 0  # which "process" is logging (0 = origin; remote hand-offs get 1, 2, ..)
         self.nsides = 0
 
@@ -520,6 +525,18 @@ class Interp(object):
                 TYPED_MSG.log(tv=tv, **fs)
             else:
                 TYPED_MSG(tv=tv, **fs).write()
+        elif api == 8:
+            # log on the nearest *enclosing* action object that is open but not current
+            ref = {"k": "m", "type": mt, "fields": dict(fs)}
+            outer = None
+            if len(self.astack) >= 2 and self.astack[-2] is not None and len(self.stack) >= 2:
+                outer = self.astack[-2]
+            if outer is None:
+                self._attach(ref)
+                log_message(mt, **fs)
+            else:
+                self.stack[-2]["children"].append(ref)
+                outer.log(mt, **fs)
         elif api == 7:
             ref = {"k": "m", "type": "app:badtyped", "fields": dict(fs), "dropped": True}
             self._attach(ref)
@@ -639,10 +656,12 @@ class Interp(object):
             @log_call(action_type=at_name)
             def fn(x):
                 self.stack.append(ref)
+                self.astack.append(current_action())
                 try:
                     body()
                 finally:
                     self.stack.pop()
+                    self.astack.pop()
                 return result
 
             self._attach(ref)
@@ -675,6 +694,7 @@ class Interp(object):
                 action = start_action(action_type=atype, **start_args)
 
         self.stack.append(ref)
+        self.astack.append(action)
         try:
             if style in (0, 3):
                 try:
@@ -746,6 +766,7 @@ class Interp(object):
                     raise e_seen
         finally:
             self.stack.pop()
+            self.astack.pop()
 
     def exec_remote(self, s, ref, body, ok, failed, sf, end_args):
         """Hand work to 'another thread/process': reserve a position in the
@@ -771,6 +792,8 @@ class Interp(object):
 
         def remote():
             saved = self.stack
+            saved_astack = self.astack
+            self.astack = [None]
             saved_side = self.side
             self.nsides += 1
             self.side = self.nsides
@@ -794,6 +817,7 @@ class Interp(object):
                     self._extra_finish(action, xf)
             finally:
                 self.stack = saved
+                self.astack = saved_astack
                 self.side = saved_side
 
         if style == 7:
